@@ -75,6 +75,19 @@ CLAIMED["C16"] = (
     "Trusted: Lean kernel (+propext, Classical.choice, Quot.sound); the hand-written model; 'the node whose function raised' identified by a logging wrapper around the catalogue functions; threaded operation sampled in real time.",
 )
 
+CLAIMED["C07"] = (
+    "DESIGN.md section 5, C07",
+    "Lean 4 theorems (subtractive invariants over exact rationals) over a hand-written model of diff_iloc / diff_loc / diff_align, window_accumulator and windowed_groupby_accumulator with every aggregation's on_new/on_old + differential correspondence of the real API against the model and against pandas on the window",
+    "Proof: for every N >= 1 / duration T >= 1 (non-decreasing index), every batch list and every k the retained frames concatenate to exactly the last N rows, resp. the rows with newest - T < idx (iloc_retained_eq_lastN, loc_retained_eq_within, diff_conserves), and the k-th result of sum, count, size, mean, var (ddof 0/1), value_counts and of the groupby variants (column or streaming grouper) equals the specification of the pandas aggregation on that window, with result keys exactly the keys that still have a row in the window (window_*, window_groupby_*); grouper history stays aligned and diff_align's assertions cannot fire. The pre-fix diff_loc and Mean are kept with witnesses of their failures. std is var ** 0.5 in a downstream map (checked against pandas only).",
+    "Trusted: Lean kernel (+propext, Classical.choice, Quot.sound); the hand-written model; pandas reductions specified by their textbook definitions over Option Rat; binary floating point inside pandas is outside the model (data are small-integer valued so that sums are exact; quotients compared with tolerance).",
+)
+CLAIMED["C11"] = (
+    "DESIGN.md section 5, C11",
+    "Lean 4 theorems over a hand-written model of rolling_accumulator (parametric in the window reduction), _cumulative_accumulator, expanding and EWMean + differential correspondence of the real API against the model and against pandas in one pass, exhaustive over all compositions of small tables in the thorough tier",
+    "Proof: for every table and every composition into batches (empty and shorter-than-window batches included) the concatenated per-batch outputs equal the one-pass definition: rolling over row-count and time windows for ANY window reduction (rolling_count_batching_independent, rolling_time_batching_independent), cumsum/cumprod/cummin/cummax with NaN skipping (cumulative_batching_independent), expanding sum/count/mean/var (expanding_*), ewm mean on NaN-free data (ewm_batching_independent: per batch the closed-form weighted mean at the last row seen). The pre-fix cumulative and EWM steps are kept with witnesses. One recorded finding: EWMean has no NaN handling (ewm-nan-unsupported).",
+    "Trusted: Lean kernel (+propext, Classical.choice, Quot.sound); the hand-written model; the pandas window reductions are abstract in the theorems (concrete ones only in the driver); floating point outside the model (exact data; ewm compared at 1e-9 relative).",
+)
+
 NOT_YET = {}
 
 
